@@ -264,6 +264,10 @@ class ThreadWorld(World):
             op["sym"] = r.choice(["none", "Z2", "U1", "U1U1"])
             op["sector_pick"] = r.randrange(100)
             op["complex"] = r.random() < 0.3
+            # further calls on the SAME builder object with other worker
+            # counts and vectors (whatever the first call cached is reused)
+            op["follow"] = [[r.choice([2, 2, 3, 4, 5, 8]), r.randrange(2**31)]
+                            for _ in range(r.choice([0, 1, 2, 3]))]
         elif fn == "randn":
             op["n"] = r.choice([0, 1, 2, 3, 5, 8, 13, 17, 33, 64])
             op["dist"] = r.choice(["normal", "uniform", "exp"])
@@ -714,6 +718,9 @@ class ThreadWorld(World):
             if a != b:
                 raise Violation("C16/coo_multiset:builder_coo",
                                 f"{len(a)} entries threaded vs {len(b)} serial")
+        for ntk, _ in op.get("follow") or []:
+            self._threaded({**op, "nt": ntk}, lambda: H.build_sparse_matrix(parallel=ntk, **kw), [], [_dense(ref)],
+                           poison=False, exact=False, label="builder_coo_same_builder_again")
 
     def _builder_vec(self, op, H, kw):
         d = H.hilbert_space.get_size(kw.get("sector"), kw.get("symmetry"))
@@ -738,6 +745,17 @@ class ThreadWorld(World):
         else:
             thunk = lambda: H.matvec(x, parallel=op["nt"], **kw)
         self._threaded(op, thunk, [x], [np.asarray(ref)], poison=False, exact=False)
+        for n, (ntk, xs) in enumerate(op.get("follow") or []):
+            xk = _rand(data_rng(xs), d, str(x.dtype))
+            refk = A @ xk
+            opk = {**op, "nt": ntk}
+            if linop and n % 2:
+                thunk = lambda: H.aslinearoperator(parallel=ntk, dtype=xk.dtype, **kw) @ xk
+            else:
+                thunk = lambda: H.matvec(xk, parallel=ntk, **kw)
+            self._threaded(opk, thunk, [xk], [np.asarray(refk)], poison=False, exact=False, rtol=1e-9,
+                           label=op["fn"] + "_same_builder_again")
+            self.stats.probe("builder_reused_with_other_worker_count")
 
     def _call_builder_linop(self, op):
         self._call_builder_matvec(op, linop=True)
